@@ -27,21 +27,39 @@ def outcomeNodes (line : String) : Except String (List Node) :=
     | .error e => .error ("unparsable outcome: " ++ e)
   else .error "not a tree outcome"
 
-/-- C12, "word values are non-empty strings": the clause is kept apart from `schemaOK` (and from
+/- C12, "word values are non-empty strings": the clause is kept apart from `schemaOK` (and from
     `C12_partial`) because it is false of the unchanged library for a word made of quotes only
     (`a ""`: the value is the empty string, as quote removal demands).  Contexts: `+quotes-only` (the
     source under the span consists of quote characters), `+heredoc-delimiter` (reported on the
     redirect: the delimiter word of `<<` / `<<-` is the raw token in the unchanged library). -/
-def emptyWords (src : Str) (n : Node) : List Viol :=
-  n.preorder.flatMap fun m =>
-    match m with
-    | .redirect _ _ ty (some (.word _ w _)) _ _ _ =>
-      if w.isEmpty && (ty == "<<".toList || ty == "<<-".toList) then ["word-empty+heredoc-delimiter"] else []
-    | .word p w _ | .assignment p w _ =>
-      if !w.isEmpty then [] else
-      let t := Str.slice src p.1 p.2
-      ["word-empty" ++ (if !t.isEmpty && t.all (fun c => c == '\'' || c == '"' || c == '$') then "+quotes-only" else "")]
-    | _ => []
+mutual
+def emptyWN (src : Str) (ctx : String) : Node → List Viol
+  | .word p w ps | .assignment p w ps =>
+    let t := Str.slice src p.1 p.2
+    -- spans inside a word whose source holds a line continuation are offsets into the shortened text (D10)
+    let ctx' := if realContGo 0 t || (hasContinuation t && ps.any isSubst) then addCtx ctx "+cont" else ctx
+    (if !w.isEmpty then [] else
+      ["word-empty" ++ (if !t.isEmpty && t.all (fun c => c == '\'' || c == '"' || c == '$') then "+quotes-only" else "") ++ ctx]) ++
+    emptyWL src ctx' ps
+  | .commandsubstitution _ c | .processsubstitution _ c => emptyWN src ctx c
+  | .list _ ps | .pipeline _ ps | .ifN _ ps | .forN _ ps | .whileN _ ps | .untilN _ ps
+  | .caseN _ ps | .pattern _ ps | .command _ ps | .unimplemented _ ps | .function _ _ _ ps =>
+    emptyWL src ctx ps
+  | .compound _ l r => emptyWL src ctx l ++ emptyWL src ctx r
+  | .redirect _ _ ty o _ _ _ =>
+    (match o with
+     | some (.word p w ps) =>
+       (if w.isEmpty && (ty == "<<".toList || ty == "<<-".toList) then ["word-empty+heredoc-delimiter" ++ ctx] else []) ++
+       emptyWN src ctx (.word p w ps)
+     | some n => emptyWN src ctx n
+     | none => [])
+  | _ => []
+def emptyWL (src : Str) (ctx : String) : List Node → List Viol
+  | [] => []
+  | n :: ns => emptyWN src ctx n ++ emptyWL src ctx ns
+end
+
+def emptyWords (src : Str) (n : Node) : List Viol := emptyWN src "" n
 
 def evalProp (prop : String) (src : Str) (parts : List Node) (dbg : Bool := false) : List Viol :=
   match prop with
